@@ -5,6 +5,7 @@ import fabric_corr
 def explore(run, lean):
     fabric_corr.explore(run, "C06", 200 if run.tier == "quick" else 4000)
     fabric_corr.explore_fine(run, "C06", 60 if run.tier == "quick" else 1500)
+    fabric_corr.explore_subscribe_race(run, 60 if run.tier == "quick" else 1500)
     run.extra["rule"] = ("(a) scenarios: 1-4 subscriber queues (plain deques and active-object LockingDeques, several of them empty = equal "
                          "contents), one or two client threads issuing subscribe/publish/start/stop/clear/is_alive (start/stop/clear "
                          "from one thread only); half of them structured (subscribe*, publish* before the first start = maximal "
